@@ -143,7 +143,7 @@ theorem stpcpy_s_accs (cfg : Cfg) (dest dmax src : Nat) (db sb : Bos)
 
 /-- **stpncpy_s** (`hov`: as for `strncpy_s`, the `slen > srcbos` exit works on `destbos` cells) -/
 theorem stpncpy_s_accs (cfg : Cfg) (dest dmax src slen : Nat) (db sb : Bos)
-    (hov : ∀ b s, db = some b → sb = some s → s < slen → b ≤ dmax)
+    (hob : dest ≠ 0 → ∀ b s, db = some b → sb = some s → s < slen → (∀ a, Cells dest b a → R a) ∧ (∀ a, Cells dest b a → W a))
     (hrs : src ≠ 0 → ∀ a, Str d src (min dmax slen) a → R a)
     (hrd : dest ≠ 0 → ∀ a, Cells dest dmax a → R a) (hw : dest ≠ 0 → ∀ a, Cells dest dmax a → W a) :
     AccS R W d (stpncpy_s cfg dest dmax src slen db sb) (fun _ _ => True) := by
@@ -155,7 +155,7 @@ theorem stpncpy_s_accs (cfg : Cfg) (dest dmax src slen : Nat) (db sb : Bos)
   · exact AccS.handlerSBind _ (AccS.pure _ trivial)
   rename_i hm
   have h0 : W dest := hw hd _ ⟨Nat.le_refl _, by omega⟩
-  refine AccS_chkDmaxClearG _ cfg dest dmax db _ hm (hrd hd) (hw hd) ?_
+  refine AccS_chkDmaxClearG' _ cfg dest dmax db _ hm (hrd hd) (hw hd) (fun hle => ?_)
   split
   · exact AccS_errRet cfg dest dmax _ _ (hw hd) h0
   rename_i hs
@@ -166,7 +166,7 @@ theorem stpncpy_s_accs (cfg : Cfg) (dest dmax src slen : Nat) (db sb : Bos)
   · rename_i s
     split
     · rename_i hgt
-      exact AccS.bind (AccS_bosOverflow cfg dest dmax db hm (fun b hb => hov b s hb rfl hgt) (hrd hd) (hw hd))
+      exact AccS.bind (AccS_bosOverflow cfg dest dmax db hm (fun b hb => hob hd b s hb rfl hgt) hle (hw hd))
         (fun _ _ _ => AccS.pure _ trivial)
     · exact body
   · exact body
